@@ -451,6 +451,7 @@ class SecopClient(ProxyClient):
                     continue
                 self.log.debug('RX: %r', reply)
                 noactivity = 0
+                action = None
                 try:
                     action, ident, data = decode_msg(reply)
                     if ident == '.':
@@ -484,7 +485,10 @@ class SecopClient(ProxyClient):
                         self.callback(None, 'handleError',  e)
                     except Exception:
                         pass
-                    continue
+                    if action is None or action in (EVENTREPLY, ERRORPREFIX + EVENTREPLY):
+                        continue
+                    # a reply with unusable content still answers its request:
+                    # the caller must not wait for the time-out
                 try:
                     key = action, ident
                     entry = self.active_requests.pop(key)
